@@ -72,3 +72,10 @@ Proof.
           (conj (src_NormalizeAbsoluteFilePath_is_model s) (src_NormalizeAbsoluteDirPath_is_model s))))).
 Qed.
 Print Assumptions C05_path_helpers_source_is_the_model.
+
+(* ---- files.Contents.Less, translated from files/files.go on every run (Gen/BoolFns.v) ---- *)
+(* the order the prepared list is sorted by - destination, then type, then packager, each byte-wise - is the model's *)
+Theorem C05_order_source_is_the_model :
+  src_content_less_translated = true /\ forall a b, src_content_less a b = content_ltb a b.
+Proof. split; [reflexivity | exact src_content_less_is_model]. Qed.
+Print Assumptions C05_order_source_is_the_model.
